@@ -1388,6 +1388,10 @@ def oracle_c09(S):
         return (f"{tag}error closure {c['errcb']} cut the transfer short on a network that never lost a segment: the reader only stalled for "
                 f"{c['stall_only']} ms (receive window closed for a while) and then kept reading (read={c['read']}, "
                 f"sent={c['sent']}, never accepted={c['todo']})")
+    if c.get("lossfree") and (any(c["errcb"].values()) or c["end"] not in ("done", "op-cap", "step-cap") or c["elapsed"] > 300000):
+        return (f"FIN-ACK support (l, r) = {c['lossfree']}, a network that never lost or delayed a segment, a reader that kept reading and "
+                f"two graceful closes: end={c['end']} after {c['elapsed']} ms with errors {c['errcb']} (closed={c['closed']}, read={c['read']}, "
+                f"sent={c['sent']}); such a run completes without error within a few timer periods (the slowest of 200 reference runs took 78 s)")
     if c.get("noack_close") and not any(c["errcb"].values()) and c["read"]["r"] != c["sent"]["l"]:
         return (f"graceful close without FIN-ACK dropped data: the writer's send() accepted {c['sent']['l']} bytes, closed gracefully, "
                 f"no error was reported, yet only {c['read']['r']} bytes ever became readable (reader stalled {c['stall_only']} ms)")
